@@ -294,6 +294,31 @@ fn length_after_stale(n: usize, kl: usize) {
     core::mem::forget(pts);
 }
 
+/// SliderPath: changing the requested length through the accessor invalidates the cached curve.
+/// Concrete points (0,0)-(100,0) keep the float work constant; the requested length is symbolic.
+fn cache_invalidated_by_length_concrete() {
+    use rosu_map::section::hit_objects::SliderPath;
+    let pts = [Pos::new(0.0, 0.0), Pos::new(100.0, 0.0)];
+    let first: Option<f64> = if kani::any() { Some(40.0) } else { None };
+    let mut path = SliderPath::new(any_mode(), linear_list(&pts), first);
+    let mut bufs = stale_bufs_parts(0, 0, 0);
+    let cached = path.curve_with_bufs(&mut bufs).dist();
+    assert!(cached == if first.is_some() { 40.0 } else { 100.0 });
+    let l: f64 = kani::any();
+    kani::assume(l > 0.0 && l <= 131072.0);
+    *path.expected_dist_mut() = Some(l);
+    let d = path.curve_with_bufs(&mut bufs).dist();
+    assert!(d == l, "the cached curve survived a change of the requested length");
+    kani::cover!(first.is_none() && l < 50.0, "None -> Some(shorter)");
+    kani::cover!(first.is_some() && l > 100.0, "Some -> Some(longer)");
+    // back to no requested length: natural distance again
+    *path.expected_dist_mut() = None;
+    let d = path.borrowed_curve(&mut bufs).dist();
+    assert!(d == 100.0);
+    core::mem::forget(path);
+    core::mem::forget(bufs);
+}
+
 macro_rules! c18 {
     ($name:ident, $unwind:expr, $body:expr) => {
         #[kani::proof]
@@ -338,6 +363,9 @@ c18!(c18_cache_points, 6, cache_invalidated_by_points());
 // (c18_cache_length -- expected_dist_mut() invalidation on a two-point path -- needs two
 // `Curve::new` computations on two symbolic points and runs out of memory at 24 GB; the
 // invalidation itself is the same one-line `clear_curve()` call that c18_cache_points decides.)
+
+// @verif property=C18 tier=quick timeout=1200 mem=24 bounds="SliderPath over the CONCRETE points (0,0)-(100,0), first requested length None or 40: cached; *expected_dist_mut() = Some(L), every f64 L in (0,131072]; recompute; back to None; borrowed_curve"
+c18!(c18_cache_length_concrete, 6, cache_invalidated_by_length_concrete());
 
 // Vacuity twin.
 // @verif property=C18 tier=thorough expect=fail timeout=900 bounds="vacuity twin of c18_single_stale2_borrowed"
